@@ -16,6 +16,8 @@ import (
 	"encoding/json"
 	"fmt"
 	"os"
+	"runtime"
+	"runtime/debug"
 	"sort"
 	"strings"
 
@@ -34,6 +36,12 @@ type input struct {
 	Seed   uint64    `json:"seed"`
 	Style  int       `json:"style"`
 	Big    bool      `json:"big,omitempty"`
+	// how the scripted source reports a failure ("" = the reader's sentinel; see encx.FailErrors)
+	// and whether it reports its end as an error wrapping io.EOF
+	FailErr string `json:"fail_err,omitempty"`
+	WrapEOF bool   `json:"wrap_eof,omitempty"`
+	// recipe "sequence": the recipe of the stream that runs (and fails) first
+	First string `json:"first,omitempty"`
 }
 
 // mutation context
@@ -365,11 +373,15 @@ func init() {
 	lenient := func(f func(c *mctx) []byte) func(c *mctx) {
 		return func(c *mctx) { c.lenient = true; c.doc = c.remac(f(c)) }
 	}
+	// ... inside the model parser's language (any member order, whitespace, escapes, repeated members)
+	inlang := func(f func(c *mctx) []byte) func(c *mctx) {
+		return func(c *mctx) { c.doc = c.remac(f(c)) }
+	}
 	b64 := base64.StdEncoding.EncodeToString
-	add("remac_lenient_whitespace", false, lenient(func(c *mctx) []byte {
+	add("remac_lenient_whitespace", false, inlang(func(c *mctx) []byte {
 		return bytes.ReplaceAll(bytes.ReplaceAll(c.man, []byte(":"), []byte(": ")), []byte(","), []byte(" ,\t"))
 	}))
-	add("remac_lenient_reorder", false, lenient(func(c *mctx) []byte {
+	add("remac_lenient_reorder", false, inlang(func(c *mctx) []byte {
 		k := ""
 		if c.m.K != "" {
 			kb, _ := json.Marshal(c.m.K)
@@ -377,10 +389,10 @@ func init() {
 		}
 		return []byte(fmt.Sprintf(`{"np":"%s","cph":%d,"wfk":"%s","kw":%d%s}`, b64(c.m.Np), c.m.Cph, b64(c.m.Wfk), c.m.Kw, k))
 	}))
-	add("remac_lenient_duplicate_key", false, lenient(func(c *mctx) []byte {
+	add("remac_lenient_duplicate_key", false, inlang(func(c *mctx) []byte {
 		return append([]byte(fmt.Sprintf(`{"cph":%d,`, 3-c.m.Cph)), c.man[1:]...)
 	}))
-	add("remac_lenient_duplicate_key_wrong_last", false, lenient(func(c *mctx) []byte {
+	add("remac_lenient_duplicate_key_wrong_last", false, inlang(func(c *mctx) []byte {
 		return append(append([]byte(nil), c.man[:len(c.man)-1]...), []byte(fmt.Sprintf(`,"cph":%d}`, 3-c.m.Cph))...)
 	}))
 	add("remac_lenient_extra_field", false, lenient(func(c *mctx) []byte {
@@ -389,7 +401,7 @@ func init() {
 	add("remac_lenient_key_case", false, lenient(func(c *mctx) []byte {
 		return bytes.Replace(bytes.Replace(c.man, []byte(`"cph"`), []byte(`"CPH"`), 1), []byte(`"np"`), []byte(`"Np"`), 1)
 	}))
-	add("remac_lenient_escapes", false, lenient(func(c *mctx) []byte {
+	add("remac_lenient_escapes", false, inlang(func(c *mctx) []byte {
 		return bytes.Replace(c.man, []byte(`"kw"`), []byte(`"k\u0077"`), 1)
 	}))
 	// --- the unwrap callback
@@ -410,19 +422,39 @@ func init() {
 		c.tbl = encx.UTable{{Wfk: c.m.Wfk, Alg: encx.KwNames[c.m.Kw], Kn: c.kn(), Ret: make([]byte, 32)}}
 		c.unwrapOK = false
 	})
+	add("unwrap_nil_noerr", false, func(c *mctx) {
+		c.tbl = encx.UTable{{Wfk: c.m.Wfk, Alg: encx.KwNames[c.m.Kw], Kn: c.kn(), Ret: nil}}
+		c.unwrapOK = false
+	})
 	add("unwrap_key_and_error", false, func(c *mctx) {
 		c.tbl = encx.UTable{{Wfk: c.m.Wfk, Alg: encx.KwNames[c.m.Kw], Kn: c.kn(), Ret: c.fk, Err: true}}
 		c.mutated = false // the document is intact; either outcome (plaintext / error) is acceptable
 	})
 	// --- a document anyone can make: MACed and sealed under the all-zero file key, with a wrapped
 	// key the callback cannot unwrap
-	add("zero_key_forgery", false, func(c *mctx) {
-		p2 := append([]byte("forged:"), c.p...)
-		m := c.m
-		m.Wfk = c.r.Bytes(len(c.m.Wfk))
-		c.doc = encx.SpecEncrypt(m, make([]byte, 32), p2)
-		c.unwrapOK = false
-	})
+	// ... against every way the callback can fail to produce a usable key: an error, no key and no
+	// error, a key of the wrong length without an error, the zero key together with an error, and a
+	// different 32-byte key
+	forge := func(ret func(c *mctx) []byte, uerr, entry bool) func(c *mctx) {
+		return func(c *mctx) {
+			p2 := append([]byte("forged:"), c.p...)
+			m := c.m
+			m.Wfk = c.r.Bytes(len(c.m.Wfk))
+			c.doc = encx.SpecEncrypt(m, make([]byte, 32), p2)
+			c.unwrapOK = false
+			c.tbl = nil
+			if entry {
+				c.tbl = encx.UTable{{Wfk: m.Wfk, Alg: encx.KwNames[m.Kw], Kn: c.kn(), Ret: ret(c), Err: uerr}}
+			}
+		}
+	}
+	add("zero_key_forgery", false, forge(nil, true, false))
+	add("zero_key_forgery_unwrap_nil_noerr", false, forge(func(c *mctx) []byte { return nil }, false, true))
+	add("zero_key_forgery_unwrap_short_noerr", false, forge(func(c *mctx) []byte { return c.r.Bytes(16) }, false, true))
+	add("zero_key_forgery_unwrap_long_noerr", false, forge(func(c *mctx) []byte { return c.r.Bytes(33) }, false, true))
+	add("zero_key_forgery_unwrap_31_noerr", false, forge(func(c *mctx) []byte { return make([]byte, 31) }, false, true))
+	add("zero_key_forgery_unwrap_zero_key_and_error", false, forge(func(c *mctx) []byte { return make([]byte, 32) }, true, true))
+	add("zero_key_forgery_unwrap_wrong_key", false, forge(func(c *mctx) []byte { return c.r.Bytes(32) }, false, true))
 	// --- the source reader fails
 	failIn := func(f func(c *mctx) int) func(c *mctx) {
 		return func(c *mctx) { c.failAt = f(c); c.mutated = false }
@@ -450,6 +482,9 @@ func init() {
 var recipeByName = map[string]recipe{}
 
 func run(ctx *core.Ctx, in input) error {
+	if in.Recipe == "sequence" {
+		return runSequence(ctx, in)
+	}
 	rc, ok := recipeByName[in.Recipe]
 	if !ok {
 		return fmt.Errorf("c02: unknown recipe %q", in.Recipe)
@@ -489,15 +524,27 @@ func run(ctx *core.Ctx, in input) error {
 	} else {
 		sc = encx.GenItems(r, len(c.doc), in.Style, 1+r.Intn(len(c.doc)+1), maxItems)
 	}
-	dres := encx.RunDecrypt(c.doc, sc, c.tbl, in.OptKn, r.Fork())
+	so := encx.SrcOpts{Fail: in.FailErr, WrapEOF: in.WrapEOF}
+	dres := encx.RunDecryptSrc(c.doc, sc, c.tbl, in.OptKn, r.Fork(), so)
 	docArg := "None"
 	if !in.Big && !c.lenient {
 		docArg = "(Some " + hx.CoqBytes(c.doc) + ")"
 	}
 	cs := hx.Case{Kind: "tamper", Input: hx.MustJSON(in)}
 	cs.Facts = map[string]any{"recipe": in.Recipe, "plaintext_empty": len(c.p) == 0, "big": in.Big,
-		"unwrap_returns_file_key": c.unwrapOK, "mutated": c.mutated}
-	cs.Class = fmt.Sprintf("%s/%s/%s/kw%d/%s", in.Recipe, encx.LenClass(len(c.p)), encx.CphNames[in.Cph], in.Kw, sc.Shape())
+		"unwrap_returns_file_key": c.unwrapOK, "mutated": c.mutated, "fail_err": in.FailErr, "wrap_eof": in.WrapEOF}
+	cs.Class = fmt.Sprintf("%s/%s/%s/kw%d/%s/%s%v", in.Recipe, encx.LenClass(len(c.p)), encx.CphNames[in.Cph], in.Kw, sc.Shape(),
+		in.FailErr, in.WrapEOF)
+	if c.failAt >= 0 {
+		fe := in.FailErr
+		if fe == "" {
+			fe = "sentinel"
+		}
+		ctx.Sink.Count("source_error=" + fe)
+	}
+	if in.WrapEOF {
+		ctx.Sink.Count("source_end=error_wrapping_EOF")
+	}
 	cs.Trivial = !c.mutated && c.failAt < 0
 	cs.Observed = map[string]any{"call_error": dres.CallErr != nil, "out_len": len(dres.Out), "status": dres.Status,
 		"doc_len": len(c.doc)}
@@ -524,6 +571,96 @@ func run(ctx *core.Ctx, in input) error {
 		ctx.Sink.Count("oracle_only")
 	}
 	ctx.Sink.Add(cs)
+	return nil
+}
+
+// makeDoc builds a valid document for plaintext p with fresh keys.
+func makeDoc(r *hx.Rand, cph, kw int, k string, p []byte) (doc []byte, tbl encx.UTable) {
+	fk := r.Bytes(32)
+	wl := 32
+	switch kw {
+	case 1:
+		wl = 40
+	case 5:
+		wl = 256
+	}
+	m := encx.Manifest{K: k, Kw: kw, Wfk: r.Bytes(wl), Cph: cph, Np: r.Bytes(7)}
+	return encx.SpecEncrypt(m, fk, p), encx.UTable{{Wfk: m.Wfk, Alg: encx.KwNames[kw], Kn: k, Ret: fk}}
+}
+
+// runSequence: what happened to an earlier stream must not leak into later ones.  First a
+// stream runs to its end (usually a failure: tampered document, failing source, bad key);
+// then two VALID documents are decrypted with both streams alive at once - the second one is
+// opened and read to its end inside the first one's consumer, after the first has handed out only
+// part of a segment - and each is judged against its OWN plaintext.  One P and no GC, so that
+// sync.Pool hands buffers out reproducibly.
+func runSequence(ctx *core.Ctx, in input) error {
+	r := hx.NewRand(in.Seed)
+	prev := runtime.GOMAXPROCS(1)
+	defer runtime.GOMAXPROCS(prev)
+	gc := debug.SetGCPercent(-1)
+	defer debug.SetGCPercent(gc)
+	settle := func() {
+		for i := 0; i < 20; i++ {
+			runtime.Gosched()
+		}
+	}
+	first := in
+	first.Recipe, first.First, first.Seed = in.First, "", r.U64()
+	if err := run(ctx, first); err != nil {
+		return err
+	}
+	settle()
+	pA := in.P.Bytes()
+	pgB := encx.PSeq(r.Intn(256), len(pA)+r.Intn(3))
+	pB := pgB.Bytes()
+	docA, tblA := makeDoc(r, in.Cph, in.Kw, in.K, pA)
+	docB, tblB := makeDoc(r, in.Cph, in.Kw, in.K, pB)
+	scA := encx.GenItems(r, len(docA), in.Style, 1+r.Intn(len(docA)+1), 16)
+	scB := encx.GenItems(r, len(docB), in.Style, 1+r.Intn(len(docB)+1), 16)
+	so := encx.SrcOpts{}
+	var resA, resB encx.DecResult
+	streamA, err := encx.StartDecrypt(docA, scA, tblA, "", so)
+	if err != nil {
+		resA.CallErr, resA.Known = err, true
+		resB = encx.RunDecryptSrc(docB, scB, tblB, "", r.Fork(), so)
+	} else {
+		// the outer consumer takes only a part of the first segment ...
+		k := 1
+		if len(pA) > 2 {
+			k = 1 + r.Intn(len(pA)-1)
+		}
+		buf := make([]byte, k)
+		n, rerr := streamA.Read(buf)
+		// ... then the inner document is opened and read to its end ...
+		resB = encx.RunDecryptSrc(docB, scB, tblB, "", r.Fork(), so)
+		settle()
+		// ... and the outer one is read to its end
+		if rerr != nil {
+			resA.Out = buf[:n]
+			resA.Status, resA.Known = encx.StreamStatus(rerr)
+		} else {
+			resA = encx.FinishDecrypt(streamA, buf[:n], r.Fork(), so)
+		}
+	}
+	settle()
+	emit := func(role string, pg encx.PGen, doc []byte, tbl encx.UTable, sc encx.SItems, res encx.DecResult) {
+		cs := hx.Case{Kind: "tamper", Input: hx.MustJSON(in)}
+		cs.Facts = map[string]any{"recipe": "sequence_" + role, "after": in.First, "plaintext_empty": len(pg.Bytes()) == 0,
+			"big": false, "mutated": false}
+		cs.Class = fmt.Sprintf("sequence_%s/after_%s/%s/%s", role, in.First, encx.LenClass(len(pg.Bytes())), encx.CphNames[in.Cph])
+		cs.Observed = map[string]any{"call_error": res.CallErr != nil, "out_len": len(res.Out), "status": res.Status}
+		cs.Coq = fmt.Sprintf("CTamper %s (Some %s) %s %s %s %s", pg.Coq(), hx.CoqBytes(doc), tbl.Coq(), hx.CoqString(""),
+			sc.Coq(), res.CoqObs())
+		if !res.Known {
+			cs.Direct, cs.Note = 1, "unclassified stream outcome"
+		}
+		ctx.Sink.Count("recipe=sequence_" + role)
+		ctx.Sink.Count("sequence/after=" + in.First)
+		ctx.Sink.Add(cs)
+	}
+	emit("outer", in.P, docA, tblA, scA, resA)
+	emit("inner", pgB, docB, tblB, scB, resB)
 	return nil
 }
 
@@ -570,9 +707,39 @@ func gen(ctx *core.Ctx) {
 					if name == "remac_drop_k" && v == 2 {
 						optkn = "override"
 					}
-					must(input{Recipe: name, Cph: cph, Kw: 1 + r.Intn(5), K: k, OptKn: optkn, P: encx.GenPlain(r, n),
-						Seed: r.U64(), Style: styles[r.Intn(4)]})
+					in := input{Recipe: name, Cph: cph, Kw: 1 + r.Intn(5), K: k, OptKn: optkn, P: encx.GenPlain(r, n),
+						Seed: r.U64(), Style: styles[r.Intn(4)]}
+					if strings.HasPrefix(name, "fail_") {
+						if v > 0 {
+							continue
+						}
+						// every identity of the source's error at every offset class
+						for _, fe := range encx.FailNames {
+							in.FailErr = fe
+							in.Seed = r.U64()
+							must(in)
+						}
+						continue
+					}
+					in.WrapEOF = r.Chance(1, 4)
+					must(in)
 				}
+			}
+		}
+	}
+	// sequences: one stream runs to its failure (or to its end), then two streams are alive at once
+	firsts := []string{"bitflip_body", "bitflip_tag", "truncate_in_tag", "append_byte", "fail_in_payload", "bitflip_mac",
+		"unwrap_fails", "identity", "bitflip_scheme", "truncate_in_line2", "fail_in_line3", "remac_np_short"}
+	nseq := 1
+	if ctx.Thorough {
+		nseq = 20
+	}
+	for rep := 0; rep < nseq; rep++ {
+		for _, first := range firsts {
+			for cph := 1; cph <= 2; cph++ {
+				n := []int{40, 700, 3000}[r.Intn(3)]
+				must(input{Recipe: "sequence", First: first, Cph: cph, Kw: 1 + r.Intn(5), K: "mykey", P: encx.GenPlain(r, n),
+					Seed: r.U64(), Style: styles[r.Intn(4)]})
 			}
 		}
 	}
@@ -595,8 +762,12 @@ func gen(ctx *core.Ctx) {
 			if name == "delete_middle_segment" {
 				n = 2*S + 5
 			}
-			must(input{Recipe: name, Cph: 1 + k%2, Kw: 1 + r.Intn(5), K: "mykey", P: encx.PSeq(r.Intn(256), n), Seed: r.U64(),
-				Style: styles[r.Intn(4)], Big: true})
+			in := input{Recipe: name, Cph: 1 + k%2, Kw: 1 + r.Intn(5), K: "mykey", P: encx.PSeq(r.Intn(256), n), Seed: r.U64(),
+				Style: styles[r.Intn(4)], Big: true}
+			if strings.HasPrefix(name, "fail_") {
+				in.FailErr = encx.FailNames[k%len(encx.FailNames)]
+			}
+			must(in)
 		}
 	}
 }
